@@ -58,6 +58,8 @@ macro_rules! filter_impl {
                     Some(e) => out.push(e),
                     None => break,
                 }
+                // the consumer's own code may panic while the iterator is alive
+                crate::tr::burn();
             }
             match end {
                 DrainEnd::Drop => drop(d),
@@ -74,6 +76,7 @@ macro_rules! filter_impl {
                     Some(e) => out.push(e),
                     None => break,
                 }
+                crate::tr::burn();
             }
             drop(it);
             out
